@@ -660,6 +660,9 @@ func (g *Gen) scanLoop(li *loopInfo, st *State) {
 	li.sLocs = map[string][]string{}
 	li.sWins = nil
 	g.scanLoopPass(li, st, 2)
+	if g.con.LoopNoFrame[li.ord] {
+		li.allHav = true
+	}
 }
 
 // headEval gives the value of v at the loop head when v is loop invariant: defined outside the
@@ -1312,6 +1315,9 @@ func (e *Env) mapHas(b Val, m *types.Map, k Val) string {
 	kt := k.T
 	if seqLike(k) {
 		kt = e.asSeq(k)
+	}
+	if e.inPat {
+		return "(select (select " + e.g.heap(e.cur, dk) + " " + b.T + ") " + kt + ")"
 	}
 	return "(and (not (= " + b.T + " nilloc)) (select (select " + e.g.heap(e.cur, dk) + " " + b.T + ") " + kt + "))"
 }
